@@ -549,6 +549,9 @@ class StmtMixin:
             ty = self.infer_field_type(cls, attr)
         if ty is None:
             self.unsupported(node, 'no declared type for field %s.%s' % (cls, attr))
+        if ty[0] == 'opt' and ty[1][0] in ('list', 'dict') and isinstance(v, VBool) and z3.is_false(z3.simplify(v.t)) \
+                and attr in getattr(self.reg, 'false_as_none', ()):
+            v = VNone()       # `container | False` fields: None stands for False
         if ty[0] == 'seq' and isinstance(v, VList):
             # a list stored into a field declared as an immutable sequence (option views: the setter copies the items)
             v = VTuple([]) if (getattr(v, 'pending', False) or v.e is None) else self.list_as_seq(st, v)
